@@ -235,17 +235,65 @@ class WebProcessorSession(BaseProcessorSession):
         return True
 
     @asyncio.coroutine
+    def _process_redirect_robots(self):
+        '''Process robots.txt for the request that follows a redirect.
+
+        Coroutine.
+        '''
+        request = self._item_session.request
+
+        try:
+            verdict = yield from self._fetch_rule.consult_robots_txt(request)
+        except REMOTE_ERRORS as error:
+            _logger.error(
+                _('Fetching robots.txt for ‘{url}’ '
+                  'encountered an error: {error}'),
+                url=request.url, error=error
+            )
+            self._result_rule.handle_error(self._item_session, error)
+
+            wait_time = self._result_rule.get_wait_time(
+                self._item_session, error=error
+            )
+
+            if wait_time:
+                _logger.debug('Sleeping {0}.', wait_time)
+                yield from asyncio.sleep(wait_time)
+
+            return False
+
+        _logger.debug('Robots verdict {} for redirect', verdict)
+
+        if not verdict:
+            self._item_session.skip()
+            return False
+
+        return True
+
+    @asyncio.coroutine
     def _process_loop(self):
         '''Fetch URL including redirects.
 
         Coroutine.
         '''
+        is_first = True
+
         while not self._web_client_session.done():
             self._item_session.request = self._web_client_session.next_request()
 
             verdict, reason = self._should_fetch_reason()
 
             _logger.debug('Filter verdict {} reason {}', verdict, reason)
+
+            if verdict and not is_first:
+                # The target of a redirect is subject to the robots.txt
+                # of its own scheme, host and port like any other URL.
+                ok = yield from self._process_redirect_robots()
+
+                if not ok:
+                    break
+
+            is_first = False
 
             if not verdict:
                 self._item_session.skip()
